@@ -85,6 +85,136 @@ Section Whole.
   Qed.
 End Whole.
 
+(* ---------- merge3(l, o, o) = l, whole document ---------- *)
+(* what the unchanged upstream pair may hold, place by place, for local to come back unchanged:
+   - where local has a value, upstream has no null;
+   - a mapping of upstream is present in local as well (local did not remove a whole mapping). *)
+Fixpoint covers (l o : node) : bool :=
+  match o with
+  | Map ok =>
+      match l with
+      | Map lk =>
+          (fix go (es : list (string * node)) : bool :=
+             match es with
+             | [] => true
+             | kv :: t =>
+                 match find_field (fst kv) lk with
+                 | None => negb (is_map (snd kv))
+                 | Some lv => negb (is_null (snd kv)) && covers lv (snd kv)
+                 end && go t
+             end) ok
+      | _ => true
+      end
+  | _ => true
+  end.
+Definition ocovers (l : node) (o : option node) : bool :=
+  match o with None => true | Some on => negb (is_null on) && covers l on end.
+
+Lemma covers_field lk ok k ov :
+  covers (Map lk) (Map ok) = true -> find_field k ok = Some ov ->
+  match find_field k lk with
+  | None => is_map ov = false
+  | Some lv => ocovers lv (Some ov) = true
+  end.
+Proof.
+  cbn [covers]. intros H F. apply find_field_In in F.
+  induction ok as [|[k0 v0] t IH]; [contradiction|].
+  apply Bool.andb_true_iff in H. destruct H as [Ha Hb].
+  destruct F as [F|F]; [|apply IH; auto]. inv F. cbn [fst snd] in Ha.
+  destruct (find_field k lk); [exact Ha|apply Bool.negb_true_iff in Ha; exact Ha].
+Qed.
+
+Section WholeLocal.
+  Context {Sc : Type}.
+  Variable sch : schema Sc.
+  Variable opts : wopts.
+  Variable nonstr : string -> bool.
+  Hypothesis Hatomic : atomic_lists sch opts.
+
+  Notation W3 := (walk sch opts nonstr merger3).
+
+  (* a place local does not have and where the unchanged pair holds no mapping: nothing is added *)
+  Lemma absent3 f sc x r :
+    match x with Some (Map _) => False | _ => True end ->
+    W3 f sc None [None; x; x] = Ok r -> fval nonstr r None = None.
+  Proof.
+    intros Hx H. destruct f as [|f]; [discriminate|]. cbn [walk] in H.
+    destruct x as [[t s v| |es]|]; try contradiction.
+    - destruct (is_null (Scalar t s v)) eqn:En.
+      + destruct t; try discriminate. cbn in H. unfold walk_map in H. cbn in H. inv H. reflexivity.
+      + assert (Hk : first_kind [None; Some (Scalar t s v); Some (Scalar t s v)] = Some KScalar).
+        { cbn. cbn in En. rewrite En. reflexivity. }
+        rewrite Hk in H. destruct (all_valid KScalar _); [|discriminate].
+        cbn [v_scalar merger3] in H. unfold m3_visit_scalar in H. cbn [dest_of origin_of updated_of] in H.
+        unfold tagged_null in H. rewrite En in H. cbn [orb] in H.
+        unfold o_null in H. rewrite En in H. cbn [Bool.eqb negb andb] in H.
+        rewrite String.eqb_refl in H. cbn in H. inv H. reflexivity.
+    - cbn [first_kind o_null is_null kind_of] in H.
+      destruct (all_valid KSeq _); [|discriminate].
+      rewrite (not_assoc sch opts Hatomic) in H.
+      cbn [v_list merger3] in H. unfold m3_visit_list in H. cbn [dest_of origin_of updated_of] in H.
+      cbn [tagged_null is_null orb o_null Bool.eqb negb andb] in H.
+      rewrite node_eqb_refl in H. cbn in H. inv H. reflexivity.
+    - cbn in H. unfold walk_map in H. cbn in H. inv H. reflexivity.
+  Qed.
+
+  Lemma ocovers_tagged l o : ocovers l o = true -> tagged_null o = false.
+  Proof.
+    destruct o as [on|]; cbn; auto. intros H. apply Bool.andb_true_iff in H. destruct H as [H _].
+    apply Bool.negb_true_iff in H. exact H.
+  Qed.
+
+  Lemma all_local_walk f : forall sc l o r,
+      W3 f sc None [Some l; o; o] = Ok r ->
+      wfk l = true -> clean3 nonstr l = true -> ocovers l o = true ->
+      fval nonstr r (Some l) = Some l.
+  Proof.
+    induction f as [|f IH]; intros sc l o r H Hw Hc Hcov; [discriminate|].
+    destruct (clean3_quote _ _ Hc) as [Hq Hn].
+    pose proof (ocovers_tagged _ _ Hcov) as Ho.
+    destruct l as [t s v| lk |es].
+    - rewrite (leaf3 sch opts nonstr Hatomic (S f) sc (Scalar t s v) o r eq_refl Hn Ho H). rewrite Hq. reflexivity.
+    - destruct (map_level3 sch opts nonstr f sc lk o r Ho H) as [d [-> Hwf]].
+      destruct (wfk_map _ Hw) as [Hnk Hsub].
+      destruct (walk_fields_shape_inv sch nonstr _ _ _ _ _ (nodup_sort_uniq _) _ _ Hnk Hwf) as [R [HR ->]].
+      rewrite shape_fix; auto.
+      intros k Hk. specialize (HR k Hk).
+      unfold fvs, set_nth in HR. cbn [map replace_nth field_of] in HR. fold (field_of k o) in HR.
+      destruct (find_field k lk) as [lv|] eqn:F.
+      + apply (IH _ _ _ _ HR); [eapply Hsub; eauto|eapply clean3_map; eauto|].
+        destruct o as [[| ok |]|]; cbn [field_of]; auto.
+        destruct (find_field k ok) as [ov|] eqn:Fo; auto.
+        cbn [ocovers] in Hcov. apply Bool.andb_true_iff in Hcov. destruct Hcov as [_ Hcov].
+        pose proof (covers_field _ _ _ _ Hcov Fo) as Hf. rewrite F in Hf. exact Hf.
+      + eapply absent3; [|exact HR].
+        destruct o as [[| ok |]|]; cbn [field_of]; auto.
+        destruct (find_field k ok) as [ov|] eqn:Fo; auto.
+        cbn [ocovers] in Hcov. apply Bool.andb_true_iff in Hcov. destruct Hcov as [_ Hcov].
+        pose proof (covers_field _ _ _ _ Hcov Fo) as Hf. rewrite F in Hf.
+        destruct ov; try discriminate; exact I.
+    - rewrite (leaf3 sch opts nonstr Hatomic (S f) sc (Seq es) o r eq_refl eq_refl Ho H). reflexivity.
+  Qed.
+
+  Theorem merge3_local_whole l o r :
+    is_map l && wfk l && clean3 nonstr l && ocovers l o = true ->
+    merge3 sch opts nonstr (Some l) o o = Ok r ->
+    r = Some l.
+  Proof.
+    intros Hf H. repeat rewrite Bool.andb_true_iff in Hf. destruct Hf as [[[Hm Hw] Hc] Hcov].
+    destruct l as [| lk |]; try discriminate.
+    unfold merge3, walk_top in H.
+    destruct (walk sch opts nonstr merger3 (fuel_of [Some (Map lk); o; o]) None None
+                [Some (Map lk); o; o]) as [ro| | |] eqn:E; cbn in H; try discriminate.
+    inv H. pose proof (all_local_walk _ _ _ _ _ E Hw Hc Hcov) as Hfx.
+    unfold fuel_of in E.
+    destruct (map_level3 sch opts nonstr _ _ lk o ro (ocovers_tagged _ _ Hcov) E) as [d' [-> _]].
+    cbn in Hfx |- *. destruct d' as [t s v| |]; cbn in Hfx.
+    - destruct t; cbn in Hfx; try discriminate; destruct s; try discriminate; try (destruct (nonstr v); discriminate).
+    - inv Hfx. reflexivity.
+    - inv Hfx.
+  Qed.
+End WholeLocal.
+
 (* non-vacuity *)
 Definition whole_d : node :=
   Map [("a", Scalar TInt SPlain "1"); ("s", Scalar TStr SDouble "no");
@@ -93,3 +223,17 @@ Example all_equal_example :
   is_map whole_d && wfk whole_d && clean3 (fun s => String.eqb s "no") whole_d = true /\
   merge3 schemaless kustomize_opts (fun s => String.eqb s "no") (Some whole_d) (Some whole_d) (Some whole_d) = Ok (Some whole_d).
 Proof. split; vm_compute; reflexivity. Qed.
+
+(* local adds, changes and removes non-mapping fields, adds a mapping, edits inside a shared mapping; upstream
+   (unchanged) has a field local removed and a list *)
+Definition lw_l : node :=
+  Map [("a", Scalar TInt SPlain "2"); ("m", Map [("x", Scalar TBool SPlain "true"); ("y", Scalar TStr SPlain "new")]);
+       ("n", Map [("k", Scalar TInt SPlain "1")]); ("l", Seq [Scalar TStr SPlain "q"])].
+Definition lw_o : node :=
+  Map [("a", Scalar TInt SPlain "1"); ("gone", Scalar TStr SPlain "x"); ("m", Map [("x", Scalar TBool SPlain "false"); ("z", Seq [])]);
+       ("l", Seq [Scalar TStr SPlain "p"])].
+Example local_whole_example :
+  is_map lw_l && wfk lw_l && clean3 (fun s => String.eqb s "no") lw_l && ocovers lw_l (Some lw_o) = true /\
+  node_eqb lw_l lw_o = false /\
+  merge3 schemaless kustomize_opts (fun s => String.eqb s "no") (Some lw_l) (Some lw_o) (Some lw_o) = Ok (Some lw_l).
+Proof. split; [|split]; vm_compute; reflexivity. Qed.
